@@ -1,12 +1,541 @@
-//! C20 — (stub: no ops yet)
+//! C20 — retention-time alignment and the clamp/delta step of RT / ion-mobility prediction
+//!
+//!   align n_files [n (file pep label q:f32 rt:f32)…]
+//!       -> [n_files (max_rt:f32 slope:f32 intercept:f32)…] [n aligned_rt:f32…]      | panic
+//!   rtpredict  [np seq…] [n (pep label q:f32 aligned_rt:f32)…]
+//!       -> 1 [n (r:f64 predicted_rt:f32 delta_rt_model:f32)…]   (model fitted; r = predict_peptide)
+//!        | 0 [n (predicted_rt:f32 delta_rt_model:f32)…]           (fit failed: fields untouched)
+//!   imspredict [np seq…] [n (pep label q:f32 charge ims:f32)…]
+//!       -> 1 [n (r:f64 predicted_ims:f32 delta_ims_model:f32)…] | 0 [n (predicted_ims delta_ims_model)…]
 use super::Info;
-use crate::proto::{Case, Rng, Tier, Toks};
+use crate::proto::{Case, Out, Rng, Tier, Toks};
+use sage_core::database::{IndexedDatabase, PeptideIx};
+use sage_core::enzyme::Digest;
+use sage_core::ml::mobility_model::{self, MobilityModel};
+use sage_core::ml::retention_alignment::global_alignment;
+use sage_core::ml::retention_model::{self, RetentionModel};
+use sage_core::peptide::Peptide;
+use sage_core::scoring::Feature;
 
-pub const OPS: &[&str] = &[];
-pub const INFO: Info = Info { rule: "", serial: false };
+pub const OPS: &[&str] = &["align", "rtpredict", "imspredict"];
+pub const INFO: Info = Info {
+    rule: "align: multi-file PSM sets, 1..8 files, up to 40 peptides (quick) / 100 (thorough); each file is an \
+           affine distortion a*t+b of a common profile t (exactly representable distortions of a dyadic profile, \
+           or random distortions with noise); peptides are dropped per file at random (unshared peptides), files \
+           are made all-decoy / all q>0.01 (no confident PSM), all-zero RT (MGF without RTINSECONDS), constant RT, \
+           1-2 confident peptides (fewer PSMs than parameters), single file, duplicate PSMs per peptide (min is \
+           taken), q-values exactly at / one ulp around 0.01, labels outside {1,-1}, negative / huge / non-finite \
+           RTs, file_id >= n_files (panic), plus an exhaustive small scope (all PSM sets of <= 2 (quick) / 3 (thorough) PSMs over 1-2 files x 2 peptides x {confident, not} x rt in {0, 0.5, 2, 3.5}), plus 200 / 3000 sets in which every file is an exact affine image (incl. reversed gradients) of one profile over the same peptides. non-trivial = some file has \
+           at least 2 confident target PSMs of distinct peptides. rtpredict/imspredict: 4..80 random tryptic-like \
+           peptides, observed values a noisy linear function of composition (or constant / far outside the clamp \
+           range), 0..all PSMs confident; non-trivial = the model was fitted",
+    serial: false,
+};
 
-pub fn gen(_rng: &mut Rng, _tier: Tier, _emit: &mut dyn FnMut(Case)) {}
+// ---------------------------------------------------------------------------------------------
+// align
 
-pub fn exec(_op: &str, _t: &mut Toks) -> Option<String> {
-    None
+#[derive(Clone, Copy)]
+struct F {
+    file: usize,
+    pep: usize,
+    label: i32,
+    q: f32,
+    rt: f32,
+}
+
+fn align_request(n_files: usize, fs: &[F]) -> String {
+    let mut o = Out::new();
+    o.raw("align").n(n_files).n(fs.len());
+    for f in fs {
+        o.n(f.file).n(f.pep).n(f.label).f32(f.q).f32(f.rt);
+    }
+    o.finish()
+}
+
+fn align_case(n_files: usize, fs: &[F]) -> Case {
+    // non-trivial: some file has >= 2 confident targets of distinct peptides
+    let mut nt = false;
+    for file in 0..n_files {
+        let mut peps: Vec<usize> = fs
+            .iter()
+            .filter(|f| f.file == file && f.label == 1 && f.q <= 0.01)
+            .map(|f| f.pep)
+            .collect();
+        peps.sort_unstable();
+        peps.dedup();
+        if peps.len() >= 2 {
+            nt = true;
+        }
+    }
+    Case::new(align_request(n_files, fs)).nontrivial(nt).tag_if(n_files == 1, "single-file")
+}
+
+const Q_CONF: f32 = 0.001;
+
+fn next_up(x: f32) -> f32 {
+    f32::from_bits(x.to_bits() + 1)
+}
+fn next_down(x: f32) -> f32 {
+    f32::from_bits(x.to_bits() - 1)
+}
+
+#[derive(Clone, Copy, PartialEq)]
+enum FileKind {
+    Normal,
+    NoConfident, // every PSM is a decoy or has q > 0.01
+    AllZero,     // rt = 0 everywhere
+    Constant,    // one rt value everywhere
+    Sparse,      // only 1-2 confident peptides
+    Negative,    // all RTs negative (max_rt falls back to 1)
+}
+
+/// a structured random multi-file PSM set
+fn random_set(rng: &mut Rng, n_files: usize, max_peps: usize, exact: bool) -> (Vec<F>, Vec<&'static str>) {
+    let mut tags: Vec<&'static str> = vec![];
+    let n_peps = 1 + rng.below(max_peps);
+    // common profile
+    let profile: Vec<f64> = (0..n_peps)
+        .map(|_| if exact { (8 + rng.below(8 * 120)) as f64 / 8.0 } else { 1.0 + rng.unit() * 119.0 })
+        .collect();
+    let mut fs = Vec::new();
+    for file in 0..n_files {
+        let kind = match rng.below(14) {
+            0 => FileKind::NoConfident,
+            1 => FileKind::AllZero,
+            2 => FileKind::Constant,
+            3 => FileKind::Sparse,
+            4 if !exact => FileKind::Negative,
+            _ => FileKind::Normal,
+        };
+        match kind {
+            FileKind::NoConfident => tags.push("file-no-confident"),
+            FileKind::AllZero => tags.push("file-all-zero-rt"),
+            FileKind::Constant => tags.push("file-constant-rt"),
+            FileKind::Sparse => tags.push("file-fewer-psms-than-parameters"),
+            FileKind::Negative => tags.push("file-negative-rt"),
+            FileKind::Normal => {}
+        }
+        let (a, b) = if exact {
+            (*rng.pick(&[1.0f64, 2.0, 0.5, 1.5, 3.0, 0.25, 0.75]), rng.below(121) as f64 / 4.0)
+        } else {
+            (0.5 + rng.unit() * 1.5, rng.unit() * 30.0)
+        };
+        let noise = if exact || rng.chance(1, 4) { 0.0 } else { *rng.pick(&[0.01f64, 0.5, 5.0]) };
+        let p_present = if exact && rng.chance(1, 2) { 100 } else { *rng.pick(&[100u32, 90, 60, 30]) };
+        let constant = (rng.unit() * 100.0) as f32;
+        let mut n_conf = 0usize;
+        for (pep, &t) in profile.iter().enumerate() {
+            if !rng.chance(p_present, 100) {
+                continue;
+            }
+            let copies = if rng.chance(1, 5) { 2 + rng.below(2) } else { 1 };
+            for c in 0..copies {
+                let jitter = if c == 0 { 0.0 } else { rng.unit() * 3.0 };
+                let mut rt = (a * t + b + noise * (rng.unit() - 0.5) + jitter) as f32;
+                let mut label = if rng.chance(1, 8) { -1 } else { 1 };
+                let mut q = if rng.chance(1, 6) {
+                    // not confident; sometimes by one ulp
+                    if rng.chance(1, 4) { next_up(0.01) } else { 0.02 + rng.unit() as f32 * 0.5 }
+                } else if rng.chance(1, 8) {
+                    0.01 // exactly at the threshold: confident
+                } else {
+                    Q_CONF
+                };
+                match kind {
+                    FileKind::NoConfident => {
+                        if rng.chance(1, 2) {
+                            label = -1
+                        } else {
+                            q = 0.05
+                        }
+                    }
+                    FileKind::AllZero => rt = 0.0,
+                    FileKind::Constant => rt = constant,
+                    FileKind::Sparse => {
+                        if label == 1 && q <= 0.01 {
+                            if n_conf >= 2 {
+                                q = 0.5
+                            } else {
+                                n_conf += 1
+                            }
+                        }
+                    }
+                    FileKind::Negative => rt = -rt,
+                    FileKind::Normal => {}
+                }
+                fs.push(F { file, pep, label, q, rt });
+            }
+        }
+    }
+    // peptide ids need not be dense: spread them
+    if rng.chance(1, 3) {
+        for f in fs.iter_mut() {
+            f.pep = f.pep * 7919 + 13;
+        }
+    }
+    rng.shuffle(&mut fs);
+    tags.push(if exact { "affine-exact" } else { "affine-noisy" });
+    (fs, tags)
+}
+
+fn emit_tagged(emit: &mut dyn FnMut(Case), n_files: usize, fs: &[F], tags: &[&'static str]) {
+    let mut c = align_case(n_files, fs);
+    let mut seen: Vec<&'static str> = vec![];
+    for t in tags {
+        if !seen.contains(t) {
+            seen.push(t);
+            c = c.tag(t);
+        }
+    }
+    emit(c);
+}
+
+fn gen_align(rng: &mut Rng, tier: Tier, emit: &mut dyn FnMut(Case)) {
+    let ft = |file: usize, pep: usize, rt: f32| F { file, pep, label: 1, q: Q_CONF, rt };
+
+    // ---- directed cases
+    // empty inputs
+    emit_tagged(emit, 0, &[], &["directed", "empty"]);
+    emit_tagged(emit, 1, &[], &["directed", "empty"]);
+    emit_tagged(emit, 3, &[], &["directed", "empty"]);
+    // the repaired defect: a file whose RTs are all zero (with and without a normal second file)
+    emit_tagged(emit, 1, &[ft(0, 0, 0.0), ft(0, 1, 0.0)], &["directed", "file-all-zero-rt"]);
+    emit_tagged(
+        emit,
+        2,
+        &[ft(0, 0, 0.0), ft(0, 1, 0.0), ft(1, 0, 10.0), ft(1, 1, 20.0), ft(1, 2, 30.5)],
+        &["directed", "file-all-zero-rt"],
+    );
+    // -0.0, tiny positive, subnormal RTs (ceil = 1 / 0)
+    emit_tagged(emit, 1, &[ft(0, 0, -0.0), ft(0, 1, 0.0)], &["directed", "file-all-zero-rt"]);
+    emit_tagged(emit, 1, &[ft(0, 0, 1e-45), ft(0, 1, 1e-30), ft(0, 2, 0.25)], &["directed", "tiny-rt"]);
+    // exact integers: ceil(rt) == rt (x reaches exactly 1.0), and just above
+    emit_tagged(emit, 1, &[ft(0, 0, 10.0), ft(0, 1, 5.0), ft(0, 2, 2.5)], &["directed", "ceil-boundary"]);
+    emit_tagged(emit, 1, &[ft(0, 0, next_up(10.0)), ft(0, 1, 5.0), ft(0, 2, 2.5)], &["directed", "ceil-boundary"]);
+    emit_tagged(emit, 1, &[ft(0, 0, next_down(10.0)), ft(0, 1, 5.0), ft(0, 2, 2.5)], &["directed", "ceil-boundary"]);
+    // the max comes from a decoy / non-confident PSM
+    emit_tagged(
+        emit,
+        1,
+        &[ft(0, 0, 10.0), ft(0, 1, 5.0), F { file: 0, pep: 2, label: -1, q: Q_CONF, rt: 99.5 }],
+        &["directed", "max-from-decoy"],
+    );
+    // q exactly at the threshold and one ulp either side; NaN q; labels 0 / 2
+    for q in [0.01f32, next_up(0.01), next_down(0.01), 0.0, 1.0, f32::NAN] {
+        emit_tagged(
+            emit,
+            1,
+            &[ft(0, 0, 10.0), ft(0, 1, 20.0), F { file: 0, pep: 2, label: 1, q, rt: 55.0 }],
+            &["directed", "q-threshold"],
+        );
+    }
+    for label in [0, 2, -1] {
+        emit_tagged(
+            emit,
+            1,
+            &[ft(0, 0, 10.0), ft(0, 1, 20.0), F { file: 0, pep: 2, label, q: Q_CONF, rt: 55.0 }],
+            &["directed", "label-variants"],
+        );
+    }
+    // min over duplicates (the later / earlier PSM is the smaller one)
+    emit_tagged(
+        emit,
+        2,
+        &[ft(0, 0, 10.0), ft(0, 0, 8.0), ft(0, 1, 20.0), ft(0, 1, 25.0), ft(1, 0, 4.0), ft(1, 1, 10.0), ft(1, 1, 9.0)],
+        &["directed", "duplicates-min"],
+    );
+    // two files, exact affine images (a = 2, b = 3), three peptides; and with a negative direction
+    emit_tagged(
+        emit,
+        2,
+        &[ft(0, 0, 10.0), ft(0, 1, 20.0), ft(0, 2, 40.0), ft(1, 0, 23.0), ft(1, 1, 43.0), ft(1, 2, 83.0)],
+        &["directed", "affine-exact"],
+    );
+    emit_tagged(
+        emit,
+        2,
+        &[ft(0, 0, 10.0), ft(0, 1, 20.0), ft(0, 2, 40.0), ft(1, 0, 90.0), ft(1, 1, 80.0), ft(1, 2, 60.0)],
+        &["directed", "affine-exact", "reversed-gradient"],
+    );
+    // one confident peptide per file (fewer PSMs than parameters), one file with none
+    emit_tagged(emit, 3, &[ft(0, 0, 10.0), ft(1, 0, 12.0)], &["directed", "file-fewer-psms-than-parameters"]);
+    emit_tagged(emit, 2, &[ft(0, 0, 10.0), ft(0, 1, 10.0), ft(0, 2, 10.0)], &["directed", "file-constant-rt"]);
+    // negative RTs only / mixed
+    emit_tagged(emit, 1, &[ft(0, 0, -10.0), ft(0, 1, -20.5)], &["directed", "file-negative-rt"]);
+    emit_tagged(emit, 2, &[ft(0, 0, -0.5), ft(1, 0, 0.5), ft(0, 1, 0.25), ft(1, 1, 0.75)], &["directed", "mean-cancels-to-zero"]);
+    // non-finite RTs
+    emit_tagged(emit, 1, &[ft(0, 0, f32::NAN), ft(0, 1, 5.0), ft(0, 2, 7.0)], &["directed", "nonfinite-rt"]);
+    emit_tagged(emit, 1, &[ft(0, 0, f32::INFINITY), ft(0, 1, 5.0), ft(0, 2, 7.0)], &["directed", "nonfinite-rt"]);
+    emit_tagged(emit, 2, &[ft(0, 0, f32::NAN), ft(0, 0, 3.0), ft(1, 0, f32::NAN), ft(0, 1, 5.0), ft(1, 1, 7.0)], &["directed", "nonfinite-rt"]);
+    // large RTs (seconds instead of minutes, and absurd)
+    emit_tagged(emit, 1, &[ft(0, 0, 7200.0), ft(0, 1, 3600.5), ft(0, 2, 15.25)], &["directed", "large-rt"]);
+    emit_tagged(emit, 1, &[ft(0, 0, 1.0e6), ft(0, 1, 3.0e5), ft(0, 2, 15.25)], &["directed", "large-rt"]);
+    // file_id >= n_files: the real code indexes out of bounds
+    emit_tagged(emit, 1, &[ft(0, 0, 10.0), ft(1, 1, 5.0)], &["directed", "file-id-out-of-range"]);
+    emit_tagged(emit, 0, &[ft(0, 0, 10.0)], &["directed", "file-id-out-of-range"]);
+
+    // ---- exhaustive small scope: <= 2 files, <= 3 PSMs over {0, 0.5, 2, 3.5} x 2 peptides x {conf, not}
+    let vals = [0.0f32, 0.5, 2.0, 3.5];
+    let max_n = if tier == Tier::Quick { 2 } else { 3 };
+    for n_files in 1..=2usize {
+        for n in 1..=max_n {
+            let per = n_files * 2 * 2 * vals.len();
+            let total = per.pow(n as u32);
+            for code in 0..total {
+                let mut c = code;
+                let mut fs = Vec::new();
+                for _ in 0..n {
+                    let d = c % per;
+                    c /= per;
+                    let file = d % n_files;
+                    let pep = (d / n_files) % 2;
+                    let conf = (d / n_files / 2) % 2 == 0;
+                    let rt = vals[d / n_files / 4];
+                    fs.push(F { file, pep, label: 1, q: if conf { Q_CONF } else { 0.5 }, rt });
+                }
+                emit_tagged(emit, n_files, &fs, &["exhaustive-small"]);
+            }
+        }
+    }
+
+    // ---- structured random
+    let (n_random, max_peps) = if tier == Tier::Quick { (700, 40) } else { (9000, 100) };
+    for i in 0..n_random {
+        let n_files = 1 + rng.below(8);
+        let exact = i % 2 == 0;
+        let (fs, tags) = random_set(rng, n_files, max_peps, exact);
+        emit_tagged(emit, n_files, &fs, &tags);
+    }
+    // ---- exact affine images over the SAME peptide set in every file (the equivariance clause applies
+    //      to every pair of files); single PSM per peptide, all confident
+    let n_eq = if tier == Tier::Quick { 200 } else { 3000 };
+    for _ in 0..n_eq {
+        let n_files = 2 + rng.below(7);
+        let n_peps = 2 + rng.below(if tier == Tier::Quick { 20 } else { 60 });
+        let profile: Vec<f64> = (0..n_peps).map(|_| (8 + rng.below(8 * 100)) as f64 / 8.0).collect();
+        let mut fs = Vec::new();
+        for file in 0..n_files {
+            let a = *rng.pick(&[1.0f64, 2.0, 0.5, 1.5, 3.0, 0.25, 0.75, -1.0, -0.5]);
+            let b = if a < 0.0 { 400.0 } else { 0.0 } + rng.below(121) as f64 / 4.0;
+            for (pep, &t) in profile.iter().enumerate() {
+                fs.push(ft(file, pep, (a * t + b) as f32));
+            }
+            // an extra decoy stretches the scale of some files (normalisation is itself affine)
+            if rng.chance(1, 3) {
+                fs.push(F { file, pep: 100_000, label: -1, q: Q_CONF, rt: 700.0 + rng.below(300) as f32 });
+            }
+        }
+        rng.shuffle(&mut fs);
+        emit_tagged(emit, n_files, &fs, &["affine-exact", "affine-exact-all-shared"]);
+    }
+}
+
+fn exec_align(t: &mut Toks) -> Option<String> {
+    let n_files = t.usize()?;
+    let fs = t.list(|t| {
+        Some(F { file: t.usize()?, pep: t.usize()?, label: t.i64()? as i32, q: t.f32()?, rt: t.f32()? })
+    })?;
+    if !t.done() {
+        return None;
+    }
+    let mut feats: Vec<Feature> = fs
+        .iter()
+        .map(|f| {
+            let mut x = super::util::blank_feature();
+            x.file_id = f.file;
+            x.peptide_idx = PeptideIx(f.pep as u32);
+            x.label = f.label;
+            x.spectrum_q = f.q;
+            x.rt = f.rt;
+            x.aligned_rt = f32::NAN; // must be overwritten
+            x
+        })
+        .collect();
+    let al = global_alignment(&mut feats, n_files);
+    let mut o = Out::new();
+    o.n(al.len());
+    // `file_id` of entry i is i (indexed collect); anything else would show up as a different order
+    for (i, a) in al.iter().enumerate() {
+        if a.file_id != i {
+            return Some(format!("err:file_id_order {} {}", i, a.file_id));
+        }
+        o.f32(a.max_rt).f32(a.slope).f32(a.intercept);
+    }
+    o.n(feats.len());
+    for f in &feats {
+        o.f32(f.aligned_rt);
+    }
+    Some(o.finish())
+}
+
+// ---------------------------------------------------------------------------------------------
+// rtpredict / imspredict
+
+const AAS: &[u8] = b"ACDEFGHIKLMNPQRSTVWY";
+
+struct PF {
+    pep: usize,
+    label: i32,
+    q: f32,
+    charge: u8,
+    obs: f32,
+}
+
+fn predict_request(op: &str, seqs: &[String], fs: &[PF]) -> String {
+    let mut o = Out::new();
+    o.raw(op).n(seqs.len());
+    for s in seqs {
+        o.s(s);
+    }
+    o.n(fs.len());
+    for f in fs {
+        o.n(f.pep).n(f.label).f32(f.q);
+        if op == "imspredict" {
+            o.n(f.charge);
+        }
+        o.f32(f.obs);
+    }
+    o.finish()
+}
+
+fn random_peptide(rng: &mut Rng) -> String {
+    let len = 6 + rng.below(20);
+    let mut s: Vec<u8> = (0..len - 1).map(|_| *rng.pick(AAS)).collect();
+    s.push(if rng.chance(1, 2) { b'K' } else { b'R' });
+    String::from_utf8(s).unwrap()
+}
+
+fn gen_predict(rng: &mut Rng, tier: Tier, emit: &mut dyn FnMut(Case)) {
+    let n_cases = if tier == Tier::Quick { 60 } else { 1200 };
+    for i in 0..n_cases {
+        let op = if i % 3 == 2 { "imspredict" } else { "rtpredict" };
+        let n_peps = 4 + rng.below(if tier == Tier::Quick { 40 } else { 77 });
+        let seqs: Vec<String> = (0..n_peps).map(|_| random_peptide(rng)).collect();
+        // hidden linear model over composition
+        let w: Vec<f64> = (0..26).map(|_| rng.unit() - 0.35).collect();
+        let scale = *rng.pick(&[0.02f64, 0.05, 0.2]);
+        let mode = rng.below(8);
+        let mut fs = Vec::new();
+        let n = 1 + rng.below(3 * n_peps);
+        for _ in 0..n {
+            let pep = rng.below(n_peps);
+            let charge = 1 + rng.below(4) as u8;
+            let lin: f64 = seqs[pep].bytes().map(|c| w[(c - b'A') as usize]).sum::<f64>() * scale;
+            let obs = match mode {
+                0 => 5.0,                        // constant, far above the clamp range
+                1 => -3.0,                       // constant, below
+                2 => 0.5,                        // constant inside
+                3 => rng.unit() * 4.0 - 1.5, // pure noise straddling both bounds
+                _ => lin + 0.05 * (rng.unit() - 0.5) + if op == "imspredict" { 0.3 / charge as f64 } else { 0.0 },
+            } as f32;
+            let confident = match mode {
+                7 => false, // nothing to train on
+                _ => rng.chance(3, 4),
+            };
+            let label = if rng.chance(1, 10) { -1 } else { 1 };
+            let q = if confident { Q_CONF } else { 0.2 };
+            fs.push(PF { pep, label, q, charge, obs });
+        }
+        let tag = match mode {
+            0 => "obs-above-range",
+            1 => "obs-below-range",
+            2 => "obs-constant",
+            3 => "obs-noise",
+            7 => "no-training-data",
+            _ => "obs-linear",
+        };
+        emit(Case::new(predict_request(op, &seqs, &fs)).tag(tag));
+    }
+    // directed: empty feature list, single PSM
+    emit(Case::new(predict_request("rtpredict", &["PEPTIDEK".to_string()], &[])).tag("empty").nontrivial(false));
+    emit(Case::new(predict_request(
+        "rtpredict",
+        &["PEPTIDEK".to_string()],
+        &[PF { pep: 0, label: 1, q: Q_CONF, charge: 2, obs: 0.4 }],
+    ))
+    .tag("single-psm"));
+    emit(Case::new(predict_request(
+        "imspredict",
+        &["PEPTIDEK".to_string(), "LESLIEK".to_string()],
+        &[PF { pep: 0, label: 1, q: Q_CONF, charge: 2, obs: 0.9 }, PF { pep: 1, label: 1, q: Q_CONF, charge: 3, obs: 1.1 }],
+    ))
+    .tag("single-psm"));
+}
+
+fn exec_predict(op: &str, t: &mut Toks) -> Option<String> {
+    let ims = op == "imspredict";
+    let seqs = t.list(|t| t.string())?;
+    let fs = t.list(|t| {
+        let pep = t.usize()?;
+        let label = t.i64()? as i32;
+        let q = t.f32()?;
+        let charge = if ims { t.usize()? as u8 } else { 2 };
+        let obs = t.f32()?;
+        Some(PF { pep, label, q, charge, obs })
+    })?;
+    if !t.done() {
+        return None;
+    }
+    let mut peptides = Vec::new();
+    for s in &seqs {
+        let p = Peptide::try_from(Digest { decoy: false, sequence: s.clone(), missed_cleavages: 0, ..Default::default() })
+            .ok()?;
+        peptides.push(p);
+    }
+    let db = IndexedDatabase { peptides, ..Default::default() };
+    let mut feats: Vec<Feature> = fs
+        .iter()
+        .map(|f| {
+            let mut x = super::util::blank_feature();
+            x.peptide_idx = PeptideIx(f.pep as u32);
+            x.label = f.label;
+            x.spectrum_q = f.q;
+            x.charge = f.charge;
+            if ims {
+                x.ims = f.obs;
+            } else {
+                x.aligned_rt = f.obs;
+            }
+            x
+        })
+        .collect();
+    // the raw model outputs, from the same (deterministic) fit that `predict` performs internally
+    let raw: Option<Vec<f64>> = if ims {
+        MobilityModel::fit(&db, &feats).map(|lr| feats.iter().map(|f| lr.predict_peptide(&db, f)).collect())
+    } else {
+        RetentionModel::fit(&db, &feats).map(|lr| feats.iter().map(|f| lr.predict_peptide(&db, f)).collect())
+    };
+    let fitted = if ims { mobility_model::predict(&db, &mut feats) } else { retention_model::predict(&db, &mut feats) };
+    if fitted.is_some() != raw.is_some() {
+        return Some("err:fit_not_deterministic".into());
+    }
+    let mut o = Out::new();
+    o.b(fitted.is_some()).n(feats.len());
+    for (i, f) in feats.iter().enumerate() {
+        if let Some(r) = &raw {
+            o.f64(r[i]);
+        }
+        if ims {
+            o.f32(f.predicted_ims).f32(f.delta_ims_model);
+        } else {
+            o.f32(f.predicted_rt).f32(f.delta_rt_model);
+        }
+    }
+    Some(o.finish())
+}
+
+// ---------------------------------------------------------------------------------------------
+
+pub fn gen(rng: &mut Rng, tier: Tier, emit: &mut dyn FnMut(Case)) {
+    gen_align(rng, tier, emit);
+    gen_predict(rng, tier, emit);
+}
+
+pub fn exec(op: &str, t: &mut Toks) -> Option<String> {
+    match op {
+        "align" => exec_align(t),
+        "rtpredict" | "imspredict" => exec_predict(op, t),
+        _ => None,
+    }
 }
